@@ -134,6 +134,54 @@ func c12Lattice(r *engine.Run) {
 			r.Bound(fmt.Sprintf("every vertex sequence of 4..%d points of 3×3 as a LineString (%d): envelope and its invariants", maxN, len(seqs)))
 		}
 	}
+	// longer sequences, one extreme at a time: for every length 5..13 (every remainder of any
+	// unrolled or blocked scan), every position p and each of the four directions, a zig-zag whose
+	// p-th point alone sets that side of the envelope — as LineString in 4 coordinate types, and
+	// closed into a polygon shell
+	{
+		n := 0
+		for length := 5; length <= 13; length++ {
+			for p := 0; p < length; p++ {
+				for dir := 0; dir < 4; dir++ {
+					fl := make([][2]float64, length)
+					for k := range fl {
+						fl[k] = [2]float64{float64(k), float64(k % 2)}
+					}
+					switch dir {
+					case 0:
+						fl[p][0] = 100
+					case 1:
+						fl[p][0] = -100
+					case 2:
+						fl[p][1] = 100
+					default:
+						fl[p][1] = -100
+					}
+					want := refEnv{Empty: true}
+					for _, q := range fl {
+						want = want.addXY(q[0], q[1])
+					}
+					for _, ct := range allCT {
+						var seq []float64
+						for k, q := range fl {
+							seq = append(seq, q[0], q[1])
+							if ct.Is3D() {
+								seq = append(seq, q[1]) // Z repeats Y, M repeats X: payload equal to an ordinate must not confuse the scan
+							}
+							if ct.IsMeasured() {
+								seq = append(seq, q[0]+float64(k))
+							}
+						}
+						g := geom.NewLineString(geom.NewSequence(seq, ct)).AsGeometry()
+						n++
+						c12Geom(r, g, want, c12GeomCase{Shape: fmt.Sprintf("zig-zag of %d points, point %d extreme in direction %d", length, p, dir), Sup: ct.String(), WKT: g.AsText()})
+					}
+				}
+			}
+		}
+		r.States.Add(int64(n))
+		r.Bound(fmt.Sprintf("sequences of 5..13 points with a single extreme at every position in each direction × 4 coordinate types (%d lines)", n))
+	}
 	// Union envelopes: all ordered pairs over {points, segments, polygons with ≤4 vertices (thorough: ≤5)}
 	var ops []geom.Geometry
 	id := universe.Identity
